@@ -1533,12 +1533,11 @@ def c15_cli_part(res, tier, rng, nontrivial):
             confs.append({"file_rules": [{files[1][0]: {"rule": {"nonexistent_999": {"disable": True}}}}]})
         if "fix" not in kind and kind != "parsefail":
             # the file that also goes through --stdin carries the characters on which str.splitlines() and the
-            # line iteration of a text stream disagree (form feed on a line of its own: a legal format effector;
-            # VT, FS, NEL, U+2028 inside a comment): both channels must see the same lines
+            # line iteration of a text stream disagree (VT, FS, NEL, U+2028, FF — all inside a comment, where they are
+            # inert): both channels must see the same lines
             ls = files[2][1].split("\n")
             k = min(len(ls) - 1, 3)
-            ls[k] = ls[k] + " -- a\x0bb\x1cc\x85d\u2028e"
-            ls.insert(k + 1, "\x0c")
+            ls[k] = ls[k] + " -- a\x0bb\x1cc\x85d\u2028e\x0cf"
             files[2] = (files[2][0], "\n".join(ls))
         batches.append({"name": "cli%d_%s" % (b, kind), "kind": kind, "files": files, "args": args, "confs": confs})
     tasks = []
